@@ -183,6 +183,7 @@ def _mk_builtin_classes():
     mk('NotImplementedError', 'RuntimeError')
     mk('InvalidStateError', 'Exception')         # asyncio.InvalidStateError
     mk('QueueEmpty', 'Exception')
+    mk('QueueFull', 'Exception')
     mk('TypeError', 'Exception')
     mk('ValueError', 'Exception')
     mk('UnicodeError', 'ValueError')
